@@ -211,6 +211,7 @@ const (
 	OpHTTPError    // answer with http.Error through the handed-out writer
 	OpHijack       // try to hijack the connection through the handed-out writer (the spy does not support it)
 	OpCopy         // io.Copy(w, plain reader): takes the writer's ReadFrom fast path if it has one
+	OpNestedServe  // dispatch a sub-request with another method through the same instance, writing into this request's writer
 	OpSetCT        // set a Content-Type before anything is written
 	OpSetCL        // announce a Content-Length the handler may never honour
 	OpExpireCtx    // install a derived context whose deadline has already passed (context.DeadlineExceeded, no timer)
@@ -273,6 +274,7 @@ type Req struct {
 	FSPlan        []FSFault
 	FSMut         []FSMutation
 	ETagOf        *Req // take If-None-Match from the ETag this earlier request of the same task was answered with
+	Sub           *Req // record of the sub-request a handler may dispatch through the same instance (nil: none)
 	Flusher       bool
 	Hijacker      int   // underlying writer facet: 0 no http.Hijacker, 1 a Hijacker whose Hijack fails
 	ReaderFrom    bool  // underlying writer facet: io.ReaderFrom (as net/http's response has)
